@@ -115,18 +115,14 @@ theorem dataOfFrames_qext {q q' : List Frame} (h : QExt q q') :
 
 theorem taken_iff (r : Res Unit) :
     taken (.unit r) = true ↔ (r = .ok () ∨ ∃ k, r = .err (.io k)) := by
-  cases r with
-  | ok a => cases a; exact ⟨fun _ => Or.inl rfl, fun _ => rfl⟩
-  | panic s => exact ⟨fun h => by cases h, fun h => by rcases h with h | ⟨k, h⟩ <;> cases h⟩
-  | err e =>
-    cases e with
-    | io k => exact ⟨fun _ => Or.inr ⟨k, rfl⟩, fun _ => rfl⟩
-    | connectionClosed => exact ⟨fun h => by cases h, fun h => by rcases h with h | ⟨k, h⟩ <;> cases h⟩
-    | alreadyClosed => exact ⟨fun h => by cases h, fun h => by rcases h with h | ⟨k, h⟩ <;> cases h⟩
-    | capacity a b => exact ⟨fun h => by cases h, fun h => by rcases h with h | ⟨k, h⟩ <;> cases h⟩
-    | protocol p => exact ⟨fun h => by cases h, fun h => by rcases h with h | ⟨k, h⟩ <;> cases h⟩
-    | writeBufferFull f => exact ⟨fun h => by cases h, fun h => by rcases h with h | ⟨k, h⟩ <;> cases h⟩
-    | utf8 => exact ⟨fun h => by cases h, fun h => by rcases h with h | ⟨k, h⟩ <;> cases h⟩
+  constructor
+  · intro h
+    cases r with
+    | ok a => cases a; exact Or.inl rfl
+    | panic s => cases h
+    | err e => cases e <;> first | exact Or.inr ⟨_, rfl⟩ | cases h
+  · intro h
+    rcases h with h | ⟨k, h⟩ <;> rw [h] <;> rfl
 
 /-- the user data a `write` of a data frame queues: the frame iff the call reported Ok or a
 transport error -/
@@ -198,10 +194,10 @@ theorem step_written (w : World) (op : Op) (hI : Inv w) (hop : Op.noRaw op) :
       rw [hq]
       cases m with
       | text d =>
-        show _ = _ ++ (if taken (w.step (.write (.text d))).2 then [.text d] else [])
+        show _ = _ ++ (if taken (w.step (.write (.text d))).2 then [Message.text d] else [])
         rw [ht]; simp
       | binary d =>
-        show _ = _ ++ (if taken (w.step (.write (.binary d))).2 then [.binary d] else [])
+        show _ = _ ++ (if taken (w.step (.write (.binary d))).2 then [Message.binary d] else [])
         rw [ht]; simp
       | ping d => exact (List.append_nil _).symm
       | pong d => exact (List.append_nil _).symm
